@@ -605,6 +605,13 @@ def rule_update_guard(ctx):
     update_guard(ctx, "C19")
 
 
+def rule_cancel_lock(ctx):
+    """`running == false` promises the snapshot's pattern is the matcher's current one: the cancelling phase must not be
+    able to time out on the worker lock (shared with C12)."""
+    from props.c12 import rule_cancel_lock as r
+    r(ctx)
+
+
 def rule_snapshot_fields(ctx):
     """`running == false` promises that the snapshot's pattern is the matcher's current one and its count / matches are
     those of the last run: Snapshot::update must copy every field from the worker on every path (a copy that is skipped
@@ -666,6 +673,7 @@ def rule_clone_complete(ctx):
 
 def rules(ctx):
     ctx.run_rule("C19.cancel-writers", rule_cancel_writers)
+    ctx.run_rule("C19.cancel-lock", rule_cancel_lock)
     ctx.run_rule("C19.clone-complete", rule_clone_complete)
     ctx.run_rule("C19.update-guard", rule_update_guard)
     ctx.run_rule("C19.changed-guards-mutation", rule_changed_guards_mutation)
